@@ -289,6 +289,7 @@ class Engine:
 			for attribute in arrays:
 				if isinstance(getattr(other, attribute, None), list) and getattr(other, attribute):
 					ctx.fail('property', f'{net.name}.{type_name}: default-constructed instances share the array {attribute}', ident)
+			self.check_shared_elements(type_name, case, ident)
 			self.check_stale_arm(type_name, case, ident)
 			self.check_rekeyed_entries(type_name, case, ident)
 			ctx.count('object-histories')
@@ -296,6 +297,43 @@ class Engine:
 			ctx.count('history-timeouts')
 		except Exception as ex:  # pylint: disable=broad-except
 			ctx.fail('property', f'{net.name}.{type_name}: a history of harmless operations on a valid object raises {type(ex).__name__}: {ex}', ident)
+
+	def check_shared_elements(self, type_name, case, ident):
+		"""One element OBJECT placed several times in an array (the last position and an earlier one, all positions): encoding and size
+		depend on the contents only, so they must equal those of the same array built from independent equal objects."""
+		ctx, net = self.ctx, self.net
+		typedef = net.types[type_name]
+		for field in typedef['fields']:
+			if 'array' != field['kind']['k'] or field['kind']['sortKey']:
+				continue
+			attribute = codec.fix_name(field['name'])
+			shared = codec.guarded(net.cls(type_name).deserialize, case['data'])
+			items = getattr(shared, attribute, None)
+			if not isinstance(items, list) or not items:
+				continue
+			for shape in ([0, 0], [0, -1, 0], [-1, -1, -1]):
+				if len(items) < 2 and -1 in shape and 0 in shape:
+					continue
+				independent = [codec.guarded(net.cls(type_name).deserialize, case['data']) for _ in shape]
+				expected_items = [getattr(source, attribute)[position] for source, position in zip(independent, shape)]
+				reference = codec.guarded(net.cls(type_name).deserialize, case['data'])
+				setattr(reference, attribute, expected_items)
+				setattr(shared, attribute, [items[position] for position in shape])
+				ctx.count('history:shared-element-object')
+				try:
+					expected = (bytes(reference.serialize()), reference.size)
+				except Exception:  # pylint: disable=broad-except
+					continue  # (such an array is not encodable at all, e.g. a count member too narrow)
+				try:
+					actual = (bytes(shared.serialize()), shared.size)
+				except Exception as ex:  # pylint: disable=broad-except
+					actual = (f'{type(ex).__name__}: {ex}', None)
+				if actual != expected:
+					ctx.fail('property', (
+						f'{net.name}.{type_name}: the array {field["name"]} holding one element object at positions {shape} encodes / measures differently '
+						'from the same array built from independent equal objects'), dict(ident, member=field['name'], shape=shape, shared=str(actual[0])[:200] if isinstance(actual[0], str) else actual[0].hex().upper()[:400], expected=expected[0].hex().upper()[:400]))
+				elif 'ok' != self.impl_decode(type_name, actual[0])[0]:
+					ctx.fail('property', f'{net.name}.{type_name}: the encoding of the array {field["name"]} with a shared element object does not decode', dict(ident, member=field['name'], shape=shape))
 
 	def check_stale_arm(self, type_name, case, ident):
 		"""A conditional member whose condition does not hold is not part of the value: giving it a content (the other arm of a
